@@ -53,6 +53,7 @@ type socksTrace struct {
 	AuthRep  int    `json:"authRep"`
 	Reply    int    `json:"reply"`
 	May      bool   `json:"may"`
+	Panic    string `json:"panic"`
 }
 
 // one target listener per worker: counts accepted connections
@@ -98,8 +99,15 @@ func runSocks(c *socksCase, i int, tgt *socksTarget) (*socksTrace, error) {
 	defer cli.Close()
 	cx := layer4.WrapConnection(srv, nil, zap.NewNop())
 	done := make(chan struct{})
+	panicked := make(chan string, 1)
 	go func() {
 		defer close(done)
+		defer func() {
+			if r := recover(); r != nil {
+				panicked <- fmt.Sprint(r)
+				srv.Close()
+			}
+		}()
 		h.Handle(cx, nil)
 		srv.Close()
 	}()
@@ -119,6 +127,10 @@ func runSocks(c *socksCase, i int, tgt *socksTarget) (*socksTrace, error) {
 		}
 		if tgt.accepts.Load() > before {
 			tr.Outbound = true
+		}
+		select {
+		case tr.Panic = <-panicked:
+		default:
 		}
 		return tr, nil
 	}
